@@ -5,6 +5,7 @@
 package c19
 
 import (
+	"encoding/json"
 	"fmt"
 	"hash/fnv"
 	"math/rand"
@@ -193,9 +194,22 @@ type seq struct {
 	live  []*ent
 	hist  []*ent
 	alias []*ent
-	bad   bool
+	bad   bool // a value or order check failed: the sequence stops
+	rtBad bool // a text round trip failed: no further round trips in this sequence
 
 	poolBuf [maxLive + maxHist + maxAlias]*ent
+}
+
+// textViolation reports a failed text round trip. It does not end the
+// sequence (the values themselves are intact), only its further round trips.
+func (s *seq) textViolation(class, what string) {
+	if s.bad || s.rtBad {
+		return
+	}
+	s.rtBad = true
+	cc := *s.c
+	cc.Ops = append([]opRec(nil), s.c.Ops...)
+	s.r.Violation("C19:"+class, what, cc)
 }
 
 func (s *seq) violation(class, what string) {
@@ -410,7 +424,11 @@ func (s *seq) apply(op opRec) {
 		src.v.Set(k, v)
 		src.m.set(kd, k, v)
 		s.l.count("set:"+kd.name+":"+op.Key, 1)
-		s.l.count("val:"+labelOf[v], 1)
+		if lb, ok := labelOf[v]; ok {
+			s.l.count("val:"+lb, 1)
+		} else {
+			s.l.count("val:(not in the alphabet: witness/replay)", 1)
+		}
 		s.verify(src, "set "+op.Key+"="+op.ValQ)
 	case "clone":
 		c := &ent{v: src.v.Clone(), m: src.m}
@@ -470,8 +488,11 @@ func (s *seq) apply(op opRec) {
 // roundTrip writes the value in one text form and parses it back.
 func (s *seq) roundTrip(e *ent, form string, choice int) {
 	kd := s.kd
-	if !strings.HasPrefix(form, kd.name+":") {
+	if !strings.HasPrefix(form, kd.name+":") || s.rtBad {
 		return
+	}
+	if form == formGraphString {
+		s.pipeProbe(e)
 	}
 	real, m := e.v, e.m
 	if _, why := carry(kd, form, &m); why != "" {
@@ -498,14 +519,6 @@ func (s *seq) roundTrip(e *ent, form string, choice int) {
 			return
 		}
 	}
-	text := writeText(kd, form, real, &m, choice)
-	var parsed value
-	var err error
-	if kd == depKind {
-		parsed, err = parseDep(form, text)
-	} else {
-		parsed, err = parseVer(text)
-	}
 	s.l.evals++
 	s.l.count("rt:"+form, 1)
 	if m.count() >= 2 {
@@ -516,25 +529,94 @@ func (s *seq) roundTrip(e *ent, form string, choice int) {
 			s.l.count("rtkey:"+form+":"+ki.name, 1)
 		}
 	}
+	kindOfFailure, what, text := rtOnce(kd, form, real, &m, choice)
 	if len(s.l.samples) < 2 && m.count() >= 2 {
 		s.l.samples = append(s.l.samples, map[string]string{"form": form, "set": m.canon(kd), "text": text})
 	}
-	// structural feature of the written text, so that the class names the shape
-	feat := ""
-	if kd == depKind && tokenAfterQuotedValue(kd, &m) {
-		feat = ":after-quoted-value"
+	if kindOfFailure != "" {
+		// structural feature of the written text, so that the class names the shape
+		feat := ""
+		if kd == depKind && tokenAfterQuotedValue(kd, &m) {
+			feat = ":after-quoted-value"
+		}
+		s.textViolation(form+":roundtrip:"+kindOfFailure+feat, what)
+	}
+}
+
+// rtOnce writes one set in one form, parses it back and compares. It returns
+// the failure kind ("" = faithful), a description and the text.
+func rtOnce(kd *kind, form string, real value, m *model, choice int) (fail, what, text string) {
+	text = writeText(kd, form, real, m, choice)
+	var parsed value
+	var err error
+	if kd == depKind {
+		parsed, err = parseDep(form, text)
+	} else {
+		parsed, err = parseVer(text)
 	}
 	if err != nil {
-		s.violation(form+":roundtrip:parse-error"+feat, fmt.Sprintf("set %s written as %q does not parse: %v", m.canon(kd), text, err))
-		return
+		return "parse-error", fmt.Sprintf("set %s written as %q does not parse: %v", m.canon(kd), text, err), text
 	}
-	if d := diffModel(kd, parsed, &m); d != "" {
-		s.violation(form+":roundtrip:unequal"+feat, fmt.Sprintf("set %s written as %q parses to %s: %s", m.canon(kd), text, parsed.String(), d))
-		return
+	if d := diffModel(kd, parsed, m); d != "" {
+		return "unequal", fmt.Sprintf("set %s written as %q parses to %s: %s", m.canon(kd), text, parsed.String(), d), text
 	}
 	if !parsed.Equal(real) || !real.Equal(parsed) || (kd.hasCompare && (parsed.Compare(real) != 0 || real.Compare(parsed) != 0)) {
-		s.violation(form+":roundtrip:unequal"+feat, fmt.Sprintf("set %s written as %q parses to %s, which is not Equal/Compare==0 to the original", m.canon(kd), text, parsed.String()))
+		return "unequal", fmt.Sprintf("set %s written as %q parses to %s, which is not Equal/Compare==0 to the original", m.canon(kd), text, parsed.String()), text
+	}
+	return "", "", text
+}
+
+const pipeClass = "C19:dep:graphstring:roundtrip:value-with-pipe"
+
+// pipeProbe: Graph.String has to write whatever dep.Type an edge carries, and
+// the schema syntax has no spelling for a value with '|' (the documented shape
+// of MavenExclusions). The set takes the Graph.String round trip with its '|'
+// values in place (every OTHER unwritable value replaced); a failure is
+// reported under pipeClass, which is exactly the shape of the open finding:
+// the caller then repeats the round trip with the '|' values replaced, which
+// must pass.
+func (s *seq) pipeProbe(e *ent) {
+	kd := s.kd
+	m := e.m
+	pipes := false
+	var real value
+	for k, ki := range kd.keys {
+		if !m.has[k] || ki.flag {
+			continue
+		}
+		why := depCarry(formGraphString, ki, m.val[k])
+		if why == "" {
+			continue
+		}
+		if !ki.textFlag && strings.Contains(m.val[k], "|") {
+			if _, other := depValueToken(m.val[k]); other == "" && !strings.Contains(m.val[k], " ERROR: ") && !strings.Contains(m.val[k], ": ") {
+				pipes = true
+				continue
+			}
+		}
+		if real == nil {
+			real = e.v.Clone()
+		}
+		repl := "a"
+		if ki.textFlag {
+			repl = ""
+		}
+		real.Set(k, repl)
+		m.set(kd, k, repl)
+	}
+	if !pipes {
 		return
+	}
+	if real == nil {
+		real = e.v
+	}
+	s.l.evals++
+	s.l.count("pipe_probe", 1)
+	if fail, what, _ := rtOnce(kd, formGraphString, real, &m, 0); fail != "" {
+		s.l.count("pipe_probe_failed", 1)
+		cc := *s.c
+		cc.Ops = append([]opRec(nil), s.c.Ops...)
+		s.r.Violation(pipeClass, what, cc)
 	}
 }
 
@@ -741,6 +823,35 @@ func Run(r *ev.Run, replay string) {
 		}
 		l.samples = nil
 		l.flush(r, ex)
+	}
+
+	// concrete witnesses of open findings: do they still fail?
+	for _, f := range r.OpenFindings() {
+		if f.Class != pipeClass {
+			continue
+		}
+		var w struct {
+			Kind  string     `json:"kind"`
+			Attrs []attrSpec `json:"attrs"`
+		}
+		if err := json.Unmarshal(f.Witness, &w); err != nil || kindByName(w.Kind) != depKind {
+			r.Inconclusive("finding " + f.ID + ": witness unreadable")
+			continue
+		}
+		v := depKind.zero()
+		var m model
+		for _, a := range w.Attrs {
+			k := depKind.keyIndex(a.Key)
+			val, err := strconv.Unquote(a.ValQ)
+			if k < 0 || (err != nil && a.ValQ != "") {
+				r.Inconclusive("finding " + f.ID + ": witness attribute unreadable")
+				continue
+			}
+			v.Set(k, val)
+			m.set(depKind, k, val)
+		}
+		fail, _, _ := rtOnce(depKind, formGraphString, v, &m, 0)
+		r.KnownWitness(f.ID, fail != "")
 	}
 
 	n := r.N(20000, 500000)
